@@ -1,0 +1,23 @@
+//go:build verif
+
+// Contracts for package app: the ABCI transaction wrappers (C04, C06, C18).
+// Comment-only file, read by /verif/govc.
+
+package app
+
+//@ assume func (*context).Action
+//@   modifies heap("balance.Store"), heap("fees.Store"), heap("identity.ValidatorStore"), heap("identity.WitnessStore"), heap("ons.DomainStore"), heap("delegation.DelegationStore"), heap("network_delegation.MasterStore"), heap("evidence.EvidenceStore"), heap("bitcoin.TrackerStore"), heap("ethereum.TrackerStore"), heap("governance.ProposalMasterStore"), heap("rewards.RewardMasterStore"), heap("governance.Store"), heap("vm.CommitStateDB")
+//@   ensures result != nil && fresh(result) && result.State == state && result.Router == ctx.actionRouter && result.Router != nil
+
+//@ func (*App).txDeliverer$1
+//@   requires app != nil && app.Context.deliver != nil && wfState(app.Context.deliver) && !sessOpen(app.Context.deliver) && app.Context.actionRouter != nil && app.Context.stateDB != nil
+//@   ensures !sessOpen(app.Context.deliver)                                                                                          // C06.session-closed
+//@   ensures result.Code != 0 ==> bHas(app.Context.deliver) == old(bHas(app.Context.deliver)) && bVal(app.Context.deliver) == old(bVal(app.Context.deliver))   // C06.failed-noop
+
+// EVM per-transaction bookkeeping: touches only the CommitStateDB object itself (assumed, vm package is not under contract here)
+//@ assume func (*App).GetTxFromCache
+//@   modifies nothing
+
+//@ func (*App).txChecker$1
+//@   requires app != nil && app.Context.check != nil && wfState(app.Context.check) && app.Context.actionRouter != nil
+//@   property C04 C06
